@@ -58,7 +58,7 @@ fn explore(ctx: &Ctx, p: &Params, alphabet: &[(String, RawOp)], depth: usize, la
                     eff = *s;
                     after_reset = true
                 }
-                RawOp::Dec(_) => after_reset = false,
+                RawOp::Dec(_) | RawOp::DecCut(..) | RawOp::DecFail(..) => after_reset = false,
             }
         }
         (h, eff, after_reset)
@@ -115,11 +115,11 @@ fn explore(ctx: &Ctx, p: &Params, alphabet: &[(String, RawOp)], depth: usize, la
                 ctx.violation(&case_of(p, &ops_of(&next)), &format!("{}: no operation sequence panics", label), &o, None);
                 continue;
             }
-            if let RawOp::Dec(d) = op {
+            if matches!(op, RawOp::Dec(_) | RawOp::DecCut(..) | RawOp::DecFail(..)) {
                 if after_reset {
                     // compare with a freshly constructed decoder with the same parameters / size in effect
                     let mut f = fresh(p, eff);
-                    let rf = f.apply(&RawOp::Dec(d.clone()));
+                    let rf = f.apply(op);
                     out.reset_checks += 1;
                     ctx.traces.fetch_add(1, Ordering::Relaxed);
                     let same = r.v.class() == rf.v.class() && r.out == rf.out && (!rf.v.is_ok() || r.consumed == rf.consumed);
@@ -134,7 +134,7 @@ fn explore(ctx: &Ctx, p: &Params, alphabet: &[(String, RawOp)], depth: usize, la
                     }
                 }
             }
-            let now_reset = !matches!(op, RawOp::Dec(_));
+            let now_reset = !matches!(op, RawOp::Dec(_) | RawOp::DecCut(..) | RawOp::DecFail(..));
             let eff_next = if let RawOp::ResetSize(sz) = op { *sz } else { eff };
             let fp = h.fingerprint();
             if now_reset {
@@ -228,12 +228,25 @@ pub fn run(tier: Tier) -> i32 {
             ("trained then inherit", vec![Chunk::C { class: 3, props: (0, 0, 0), prog: vec![Sym::L(0x41); 40] }, Chunk::C { class: 0, props: (0, 0, 0), prog: vec![Sym::L(0x41), Sym::L(0x42), Sym::R(0, 3)] }]),
         ];
         let mut al: Vec<(String, RawOp)> = Vec::new();
+        {
+            // heavily trained non-literal probabilities, then the input ends inside the chunk (the call fails after
+            // hundreds of symbols have been decoded)
+            let mut prog = vec![Sym::L(0x41)];
+            for k in 0..80u32 {
+                prog.extend([Sym::M(1, 3), Sym::L(0x41 + (k % 3) as u8), Sym::R(0, 2)]);
+            }
+            let w = lzma2::write(&[Chunk::C { class: 3, props: (3, 0, 2), prog }]);
+            al.push(("trained chunk (80 x match, literal, rep) cut 4 bytes before its end".into(), RawOp::Dec(Hex(w.bytes[..w.bytes.len() - 5].to_vec()))));
+        }
         for (name, cs) in &seqs {
             let w = lzma2::write(cs);
             al.push((format!("{} [{}]", name, chunks_str(cs)), RawOp::Dec(Hex(w.bytes.clone()))));
             if name.starts_with("uncompressed then inherit") {
                 // truncated inside the payload of the uncompressed chunk
                 al.push(("uncompressed chunk truncated inside its payload".into(), RawOp::Dec(Hex(w.bytes[..6].to_vec()))));
+                // the same streams from a source that hands over one byte (three bytes) per refill
+                al.push(("uncompressed then inherit-state chunk, read bytewise".into(), RawOp::DecCut(Hex(w.bytes.clone()), 1)));
+                al.push(("uncompressed chunk truncated inside its payload, read 3 bytes at a time".into(), RawOp::DecCut(Hex(w.bytes[..6].to_vec()), 3)));
             }
             if name.starts_with("well-formed (3,0,2)") {
                 let mut t = w.bytes.clone();
@@ -244,6 +257,12 @@ pub fn run(tier: Tier) -> i32 {
                 c[m] ^= 0x33;
                 al.push(("well-formed (3,0,2) corrupt".into(), RawOp::Dec(Hex(c))));
             }
+        }
+        {
+            // a decode that fails because the sink refuses the bytes handed over at a dictionary reset, in the middle of a
+            // switch to other lc/lp/pb (the decoder is left between two chunks)
+            let w = lzma2::write(&[Chunk::U { reset: true, data: b"uvwxyz".to_vec() }, Chunk::C { class: 3, props: (3, 0, 2), prog: vec![Sym::L(0x71), Sym::L(0x72), Sym::M(1, 3)] }]);
+            al.push(("uncompressed chunk then dictionary-reset chunk with new properties (3,0,2), into a sink whose first write fails".into(), RawOp::DecFail(Hex(w.bytes.clone()), 0)));
         }
         al.push(("reset()".into(), RawOp::Reset));
         jobs.push((Params { lzma2: true, lc: 0, lp: 0, pb: 0, dict: 0, size: None }, al, "raw::Lzma2Decoder".into()));
@@ -258,6 +277,96 @@ pub fn run(tier: Tier) -> i32 {
         ctx.sample(json!({"object": label, "alphabet": al.iter().map(|a| a.0.clone()).collect::<Vec<_>>(), "depth": d, "states": g.states, "edges": g.edges, "reset_then_decompress_checks": g.reset_checks, "post_reset_states": g.post_reset_states}));
     });
     ctx.scope_done("history-graphs", jobs.len() as u64, t0, "3 LZMA parameter sets + LZMA2");
+    // ---------------------------------------------------------------- symbol-level histories: EVERY program over {literal, match at
+    // distance 1} up to depth d as the first stream, reset, then a fixed probe stream - a reset that is skipped or cut
+    // short when the used decoder "looks" untouched (a probability that happens to be back at its initial value, state 0,
+    // rep distances 0) shows up for the few programs that produce that look
+    {
+        let t1 = Instant::now();
+        let d = tier.pick(16u32, 19u32);
+        let total: u64 = (1u64 << (d + 1)) - 2; // programs of length 1..=d over a 2-letter alphabet
+        let probe: Vec<Sym> = {
+            let mut v: Vec<Sym> = (0..6u32).map(|i| Sym::L(0x61 + i as u8 * 5)).collect();
+            for k in 0..40u32 {
+                v.extend([Sym::M(1 + k % 5, 2 + k % 7), Sym::L(0x30 + (k % 9) as u8)]);
+                if k % 3 == 0 {
+                    v.push(Sym::S);
+                }
+                if k % 4 == 1 {
+                    v.push(Sym::R((k % 3) as u8, 2 + k % 5));
+                    v.push(Sym::L(0x51));
+                }
+            }
+            v
+        };
+        let p = Params { lzma2: false, lc: 0, lp: 0, pb: 0, dict: 4096, size: None };
+        let ep = enc::encode(0, 0, 0, 4096, &probe);
+        let fresh_out = {
+            let mut f = fresh(&p, Some(ep.expect.len() as u64));
+            f.apply(&RawOp::Dec(Hex(ep.payload.clone())))
+        };
+        par_for(total, |i| {
+            // i -> (length, bits)
+            let mut len = 1u32;
+            let mut idx = i;
+            while idx >= (1u64 << len) {
+                idx -= 1u64 << len;
+                len += 1;
+            }
+            let mut prog: Vec<Sym> = Vec::with_capacity(len as usize + 1);
+            prog.push(Sym::L(0x61));
+            for b in 0..len {
+                prog.push(if (idx >> b) & 1 == 0 { Sym::L(0x61) } else { Sym::M(1, 2) });
+            }
+            let e = enc::encode(0, 0, 0, 4096, &prog);
+            let ops = vec![RawOp::Dec(Hex(e.payload.clone())), RawOp::ResetSize(Some(ep.expect.len() as u64)), RawOp::Dec(Hex(ep.payload.clone()))];
+            let case = Case::RawLzma { lc: 0, lp: 0, pb: 0, dict: 4096, size: Some(e.expect.len() as u64), memlimit: None, ops };
+            let o = crate::cases::run_case(&case);
+            ctx.eval(1);
+            ctx.traces.fetch_add(1, Ordering::Relaxed);
+            let ok = o.ops.len() == 3 && o.ops[0].v.is_ok() && o.ops[2].v.class() == fresh_out.v.class() && o.out.0 == fresh_out.out && o.ops[2].n == Some(fresh_out.consumed as u64);
+            if !ok {
+                ctx.violation(&case, &format!("raw::LzmaDecoder (lc=lp=pb=0): first stream [{}] ({} bytes, size known), reset(Some(size)), then the probe stream: behaves like a new decoder ({} bytes, {} input bytes)", prog_str(&prog), e.expect.len(), fresh_out.out.len(), fresh_out.consumed), &o, None);
+            }
+        });
+        ctx.nontriv(total);
+        ctx.scope_done("symbol-level-histories", total, t1, &format!("all {} programs over {{L, M(1,2)}} of length <= {} as the stream before the reset", total, d));
+    }
+    // ---------------------------------------------------------------- histories under a memory limit: the limit and the size in effect
+    // after reset(Some(..)) are the ones a new decoder with these parameters would have
+    {
+        let t1 = Instant::now();
+        let mk = |n: usize| enc::encode(3, 0, 2, 4096, &(0..n as u32).map(|i| Sym::L((i * 7 + 0x41) as u8)).collect::<Vec<_>>());
+        let mut n = 0u64;
+        for (size0, m, k) in [(100u64, 16u64, 8usize), (100, 16, 16), (100, 16, 17), (8, 16, 100), (8, 16, 16), (5000, 4096, 4000), (5000, 4096, 4097), (3, 0, 0), (3, 1, 1)] {
+            for reset_none_first in [false, true] {
+                let e0 = mk(size0 as usize);
+                let ek = mk(k);
+                let mut ops = vec![RawOp::Dec(Hex(e0.payload.clone()))];
+                if reset_none_first {
+                    ops.push(RawOp::Reset);
+                    ops.push(RawOp::Dec(Hex(e0.payload.clone())));
+                }
+                ops.push(RawOp::ResetSize(Some(k as u64)));
+                ops.push(RawOp::Dec(Hex(ek.payload.clone())));
+                let case = Case::RawLzma { lc: 3, lp: 0, pb: 2, dict: 4096, size: Some(size0), memlimit: Some(m), ops };
+                let o = crate::cases::run_case(&case);
+                let f = crate::cases::run_case(&Case::RawLzma { lc: 3, lp: 0, pb: 2, dict: 4096, size: Some(k as u64), memlimit: Some(m), ops: vec![RawOp::Dec(Hex(ek.payload.clone()))] });
+                n += 1;
+                ctx.eval(1);
+                ctx.nontriv(1);
+                let (a, b) = (o.ops.last(), f.ops.last());
+                let same = match (a, b) {
+                    (Some(x), Some(y)) => x.v.class() == y.v.class() && o.out == f.out && (!y.v.is_ok() || x.n == y.n),
+                    _ => false,
+                };
+                if !same || o.ops.iter().any(|r| r.v.is_panic()) {
+                    ctx.violation(&case, &format!("raw::LzmaDecoder constructed with size {} and memory limit {}: decode, reset(Some(Some({}))), decode {} literals: the last call behaves like a new decoder with size {} and limit {} ({:?})", size0, m, k, k, k, m, b.map(|y| (y.v.class(), y.sink_len))), &o, None);
+                }
+            }
+        }
+        ctx.scope_done("histories-under-a-memory-limit", n, t1, "");
+    }
     // ---------------------------------------------------------------- per-variable training: one adaptive probability (tree node)
     // driven to a rail by 40 equal symbols, reset, then the sibling symbols that use the same node with the other bit
     // value: every distance 1..=130 (all position-decoder nodes) and the slot edges up to 4096, every match length and
